@@ -138,7 +138,9 @@ std::string propSched(const FmmCase& c, const std::string& prop){
 #if REALOMP
             omp_set_num_threads(std::max(1, c.threads));
 #endif
+            const size_t logFrom = ctxB.log.size();
             algo->execute(*treeB, calls[ic]);
+            if(err.empty()) err = fh::checkOpsOfCall(ctxB.log, logFrom, calls[ic], lstop, Dim);
             // every submitted task has run when execute() returns
             for(const auto& t : S.tasks) if(!t.done){ err = "execute() returned while a submitted task had not run"; break; }
             totalTasks += long(S.tasks.size()); totalDeferred += S.deferred;
